@@ -104,13 +104,32 @@ Theorem c09_source_bring_up : forall tcp w r v x, (tcp = true -> w <> AOtherErro
     = (v, adopted v, true,
        [BNewHandler 4]
        ++ (if tcp then [BWaitStartupReset (Some py_NETWORK_COORDINATOR_STARTUP_RESET_WAIT)] else [])
-       ++ (if reset_seen tcp w then [BRunning true] else [BRunning false; BReset; BNewHandler 4; BRunning true])
+       ++ (if reset_seen tcp w then [BNewHandler 4; BRunning true] else [BRunning false; BReset; BNewHandler 4; BRunning true])
        ++ BCommand "version" 4 4 :: (if v =? 4 then [] else [BNewHandler (adopted v); BCommand "version" v (adopted v)]),
        ORet 0)
   /\ bring_up v = ({| b_version := v; b_handler := adopted v; b_running := true;
                       b_seq := fst (replay 0 (bringup_effs tcp w v)) |},
                    snd (replay 0 (bringup_effs tcp w v))).
 Proof. exact src_bring_up. Qed.
+
+(* A LATER start-up round (ControllerApplication._reset(): stop_ezsp() then startup_reset() on the same object), from
+   ANY stopped state -- whatever version had been negotiated and whatever handler object is installed: whether the host
+   requests the reset or, on a socket path, the NCP's own reset is seen during the start-up wait, the v4 handler is
+   installed again before the first version query, and the frames on the wire are those of the first bring-up.
+   (Before the repair 2dcaf68 the "reset seen" path kept the old handler: from the state (13, 13) the first query after
+   the NCP's reset went out in the extended format; found by the C09 correspondence, see DESIGN.md section 8.) *)
+Theorem c09_source_later_startup_reset : forall zv h eff tcp w r v x, (tcp = true -> w <> AOtherError) ->
+  py_EZSP_startup_reset_k (zv, h, false, eff) tcp w (AVal r) (AVal v) (AVal x)
+    = (v, adopted v, true,
+       eff ++ (if tcp then [BWaitStartupReset (Some py_NETWORK_COORDINATOR_STARTUP_RESET_WAIT)] else [])
+           ++ (if reset_seen tcp w then [BNewHandler 4; BRunning true] else [BRunning false; BReset; BNewHandler 4; BRunning true])
+           ++ BCommand "version" 4 4 :: (if v =? 4 then [] else [BNewHandler (adopted v); BCommand "version" v (adopted v)]),
+       ORet 0).
+Proof. exact src_startup_reset_any. Qed.
+
+Theorem c09_source_later_startup_frames : forall tcp w v seq,
+  snd (replay seq (startup_effs tcp w v)) = snd (bring_up v).
+Proof. exact src_startup_reset_frames. Qed.
 
 (* EZSP.reset() from ANY state: stop, reset handshake, back to the v4 handler (a new object: sequence
    number 0) and version 4, only then start -- the state is [do_reset]'s *)
